@@ -37,6 +37,7 @@ def tyEq (a b : Ty) : Bool :=
   | .float l h => (match b with | .float l' h' => l == l' && h == h' | _ => false)
   | .bool v => (match b with | .bool v' => v == v' | _ => false)
   | .tspan r => (match b with | .tspan r' => r == r' | _ => false)
+  | .tstamp r => (match b with | .tstamp r' => r == r' | _ => false)
   | .strSz r => (match b with | .strSz r' => r == r' | _ => false)
   | .strVal s => (match b with | .strVal s' => s == s' | _ => false)
   | .enum vs ci =>
@@ -113,6 +114,7 @@ def keyEq : Ty → Ty → Bool
   | .float l h, .float l' h' => l == l' && h == h'
   | .bool v, .bool v' => v == v'
   | .tspan r, .tspan r' => r == r'
+  | .tstamp r, .tstamp r' => r == r'
   | .strSz r, .strSz r' => r == r'
   | .enum vs ci, .enum vs' ci' => vs == vs' && ci == ci'
   | .pattern rs, .pattern rs' => rs == rs'
@@ -170,6 +172,7 @@ def generalize : Ty → Ty
   | .pattern _ => .pattern []
   | .regexp _ => .regexp ""
   | .tspan _ => .tspan Rng.all
+  | .tstamp _ => .tstamp tstampAll
   | .object _ => .object none
   | .array e _ => if e.isAny then .array .any Rng.pos else .array (generalize e) Rng.pos
   | .bool _ => .bool none
